@@ -1092,6 +1092,22 @@ pub fn random_project(rng: &mut Rng, nfiles: usize, adversarial: bool, externs: 
         items_per_file[f].push(json!({"k": "fn", "name": "load_tri", "attrs": [attr("tauri::command")], "vis": "pub", "async": false,
             "params": [], "ret": ty_json(&named("TriA")), "body": [{"k": "other", "text": "todo!()"}]}));
     }
+    // a long acyclic chain of types (no bound on the depth of a dependency path): Link00 { next: Option<Link01> } … Link39
+    if rng.chance(1, 12) {
+        let len = 34 + rng.below(8);
+        let der = "derive(Debug, Clone, Serialize, Deserialize)";
+        for i in 0..len {
+            let mut fields = vec![json!({"name": "value", "vis": "pub", "ty": ty_json(&RTy::Prim("u32".into())), "attrs": []})];
+            if i + 1 < len {
+                fields.push(json!({"name": "next", "vis": "pub", "ty": ty_json(&RTy::Opt(Box::new(RTy::Named(format!("Link{:02}", i + 1))))), "attrs": []}));
+            }
+            let f = rng.below(nfiles);
+            items_per_file[f].push(json!({"k": "struct", "name": format!("Link{:02}", i), "attrs": [attr(der)], "shape": "named", "fields": fields}));
+        }
+        let f = rng.below(nfiles);
+        items_per_file[f].push(json!({"k": "fn", "name": "load_chain", "attrs": [attr("tauri::command")], "vis": "pub", "async": false,
+            "params": [], "ret": ty_json(&RTy::Named("Link00".into())), "body": [{"k": "other", "text": "todo!()"}]}));
+    }
     // a function without parameters emitting on the result of a method chain rooted in a global
     if rng.chance(1, 3) {
         let f = rng.below(nfiles);
